@@ -22,6 +22,7 @@ type verifCase struct {
 	ID      string              `json:"id"`
 	Harness string              `json:"harness"`
 	Vars    map[string]verifVar `json:"vars"`
+	Params  map[string]int      `json:"params"`
 }
 
 type verifAbort struct{ why string }
@@ -60,6 +61,16 @@ func verifU(name string) uint64 {
 	}
 	u, _ := strconv.ParseUint(v.V, 10, 64)
 	return u
+}
+
+// ndParam: a bound chosen by the check definition (checks.json), default def.
+func ndParam(name string, def int) int {
+	if verifCur != nil {
+		if v, ok := verifCur.Params[name]; ok {
+			return v
+		}
+	}
+	return def
 }
 
 // ndSymbolic reports whether the harness runs inside the symbolic engine.
@@ -109,6 +120,9 @@ func ndString(name string, max int) string {
 	}
 	return string(b)
 }
+
+// ndBytesEqual: content equality of two byte strings.
+func ndBytesEqual(a, b []byte) bool { return string(a) == string(b) }
 
 // ndName builds an indexed variable name.
 func ndName(prefix string, i int) string { return prefix + "[" + strconv.Itoa(i) + "]" }
